@@ -62,6 +62,20 @@ def wg(e, w):
     return "b add %d %s c:00" % (w, e)
 
 
+def near_wg(r, e):
+    """Additions that look like a width gadget but are not: the second operand is a zero of another
+    width, or a wide constant whose low 8 bytes are zero."""
+    k = r.random()
+    if k < 0.4:
+        w = r.choice([9, 12, 16, 32])
+        n = r.choice([9, 10, 16])
+        c = bytes(8) + bytes([r.choice([1, 0x80, 0xff])]) + bytes(n - 9)
+        return "b add %d %s c:%s" % (w, e, c.hex())
+    if k < 0.7:
+        return "b add %d %s c:%s" % (rwidth(r), e, "00" * r.choice([2, 4, 8, 9]))
+    return "b add %d c:00 %s" % (rwidth(r), e)
+
+
 def expr(r, depth, closed=False, pless=0.15, pmem=0.10, pgad=0.25):
     """Random expression as a token string."""
     if depth <= 0 or r.random() < 0.18:
@@ -71,7 +85,7 @@ def expr(r, depth, closed=False, pless=0.15, pmem=0.10, pgad=0.25):
         # chain of 1..4 width gadgets of varying widths
         e = expr(r, depth - 1, closed, pless, pmem, pgad)
         for _ in range(r.randint(1, 4)):
-            e = wg(e, rwidth(r))
+            e = near_wg(r, e) if r.random() < 0.06 else wg(e, rwidth(r))
         return e
     k = r.random()
     if k < pless:
@@ -196,6 +210,13 @@ def g_binop(r):
     w2 = w if r.random() < 0.5 else rwidth(r)
     op = r.choice(OPS)
     c1 = const(r, w1)
+    if r.random() < 0.12:
+        # the same constant object used twice (the harness interns identical constant tokens)
+        return "fold b %s %d %s %s" % (op, w, c1, c1)
+    if r.random() < 0.08:
+        # … and read again by an enclosing operation
+        c2x = const(r, w2)
+        return "fold b add %d b %s %d %s %s %s" % (rwidth(r), op, w, c1, c2x, r.choice([c1, c2x]))
     if op in ("lsh", "rsh") and r.random() < 0.8:
         v = r.choice([0, 1, 7, 8, 9, 8 * w - 1, 8 * w, 8 * w + 1, 2 ** 16, 2 ** 64, 2 ** 70, r.randrange(0, 8 * w + 2)])
         need = max(1, (v.bit_length() + 7) // 8)
